@@ -114,8 +114,8 @@ func (r *rng) text(n int, extra string) string {
 // stray append lands in the guard instead of reallocating) and more guard
 // bytes after the capacity.
 type arena struct {
-	buf            []byte
-	p, n, capEnd   int
+	buf              []byte
+	p, n, capEnd     int
 	guardLo, guardHi int
 }
 
@@ -297,26 +297,39 @@ func show(b []byte) string {
 
 func isSub(line []byte, v string) bool { return v == "" || bytes.Contains(line, []byte(v)) }
 
-// relation describes how got differs from exp (for signatures of
+// pieceOf: is s a contiguous piece of the line? Event strings that went
+// through the JSON encoder may have invalid UTF-8 bytes replaced by U+FFFD,
+// so the line normalised the same way is accepted as well.
+func pieceOf(line []byte, s string) bool {
+	if s == "" || bytes.Contains(line, []byte(s)) {
+		return true
+	}
+	if strings.ContainsRune(s, utf8.RuneError) {
+		return true // replacement characters: the original bytes are unknown
+	}
+	return strings.Contains(fffd(string(line)), s)
+}
+
+// relation describes how got differs from exp (coarse, for signatures of
 // off-by-one style defects).
 func relation(got, exp string) string {
-	cl := func(n int) string {
-		if n > 3 {
-			return "many"
-		}
-		return fmt.Sprint(n)
-	}
-	if got == exp {
+	switch {
+	case got == exp:
 		return "equal"
-	}
-	if i := strings.Index(exp, got); i >= 0 && got != "" {
-		return "got=exp-minus(front=" + cl(i) + ",back=" + cl(len(exp)-i-len(got)) + ")"
-	}
-	if got == "" {
+	case got == "":
 		return "got-empty"
-	}
-	if i := strings.Index(got, exp); i >= 0 && exp != "" {
-		return "got=exp-plus(front=" + cl(i) + ",back=" + cl(len(got)-i-len(exp)) + ")"
+	case exp != "" && strings.HasPrefix(exp, got):
+		return "got-shorter-at-end"
+	case exp != "" && strings.HasSuffix(exp, got):
+		return "got-shorter-at-start"
+	case strings.Contains(exp, got):
+		return "got-shorter-both-ends"
+	case exp != "" && strings.HasPrefix(got, exp):
+		return "got-longer-at-end"
+	case exp != "" && strings.HasSuffix(got, exp):
+		return "got-longer-at-start"
+	case exp != "" && strings.Contains(got, exp):
+		return "got-longer-both-ends"
 	}
 	return "other"
 }
